@@ -19,6 +19,9 @@ def main():
     import tables_nitf2
     r4 = tables_nitf2.generate(os.path.join(GEN, 'NitfTables2.lean'))
     print('generated:', {'NitfTables2': len(r4['descs']), 'errors': r4['errors'], 'mismatches': len(r4['mismatches'])})
+    import tables_tre
+    r6 = tables_tre.generate(os.path.join(GEN, 'TreTables.lean'))     # also writes Gen/TreTablesDefs.lean
+    print('generated:', {'TreTables': len(r6['tres']), 'untranslated': r6['untranslated'], 'defects': len(r6['defects'])})
     import xsd2lean
     r5 = xsd2lean.generate(os.path.join(GEN, 'XsdPairs.lean'))     # also writes Gen/XsdClosed.lean
     print('generated:', {'XsdPairs': {k: r5[k] for k in list(r5)[:6] if not isinstance(r5[k], (list, dict))}})
@@ -28,6 +31,12 @@ def main():
     import gen_geo
     r6 = gen_geo.generate(os.path.join(GEN, 'Geo.lean'))
     print('generated:', {'Geo': r6['unsupported']})
+    import gen_nitf_orient
+    r8 = gen_nitf_orient.generate(os.path.join(GEN, 'NitfOrient.lean'))
+    print('generated:', {'NitfOrient': r8['unsupported'], 'rows': r8['rows']})
+    import gen_life
+    r7 = gen_life.generate(os.path.join(GEN, 'Life.lean'))
+    print('generated:', {'Life': r7['unsupported']})
     import gen_cphd
     r7 = gen_cphd.generate(os.path.join(GEN, 'CphdKernels.lean'))
     print('generated:', {'CphdKernels': r7['unsupported']})
